@@ -62,5 +62,12 @@ pub fn relocs_build(rest: &str) -> String {
 		}
 	}
 	let out = pelite::base_relocs::build(&rvas, &types);
-	format!("ok {}", hex(&out))
+	// parse it back with the real parser (placed 4-aligned between guard pages)
+	let g = Guarded::new(&out, 4, true);
+	let mut flat = Vec::new();
+	match pelite::base_relocs::BaseRelocs::parse(g.bytes()) {
+		Ok(r) => r.for_each(|rva, ty| flat.push(format!("{}:{}", rva, ty))),
+		Err(e) => return format!("ok {} reparse=err {}", hex(&out), errname(e)),
+	}
+	format!("ok {} flat=[{}]", hex(&out), flat.join(","))
 }
